@@ -84,13 +84,18 @@ def case_from_tlc(p: dict, emb: str) -> dict | None:
         if (i, j + 1) in grid:
             nets.append([1, [m, grid[(i, j + 1)]]])
     if hard_idx:
-        nets.append([1, [grid[(0, 0)], grid[(w - 1, 0)], hard_idx, grid[(0, 1)], grid[(w - 1, 1)]]])
+        r1 = min(1, max(j for (_, j) in grid))
+        nets.append([1, sorted({grid[(0, 0)], grid[(w - 1, 0)], grid[(0, r1)], grid[(w - 1, r1)]}) + [hard_idx]])
     if fixed_idx:
         top = max(j for (_, j) in grid)
         nets.append([1, [grid[(0, top)], grid[(w - 1, top)], fixed_idx]])
     init = {"none": ["none"], "grid": ["grid", h, w], "split4": ["split", 2.0, 4], "split8": ["split", 2.0, 8]}[p["init"]]
     return {"src": "tlc", "emb": emb, "die": [W, H], "blk": blk, "mods": mods, "nets": nets,
-            "thr": p["thr"] / 100, "alpha": p["alpha"] / 100, "maxiter": p["maxiter"], "init": init}
+            "thr": p["thr"] / 100, "alpha": _alpha(p), "maxiter": p["maxiter"], "init": init}
+
+
+def _alpha(p: dict) -> float:
+    return 0.999 if p["alpha"] == 999 else p["alpha"] / 100           # (999 stands for 0.999: wire length all but alone)
 
 
 def _over_case(p: dict, emb: str, w: int, h: int) -> dict:
@@ -108,7 +113,7 @@ def _over_case(p: dict, emb: str, w: int, h: int) -> dict:
     nets = [[1, [1, 2]]] + [[1, [2, k]] for k in range(3, n + 1)] + [[1, [1, n]]]
     init = {"none": ["split", 2.0, 16], "grid": ["split", 2.0, 24], "split4": ["split", 2.0, 12], "split8": ["split", 2.0, 32]}[p["init"]]
     return {"src": "tlc", "emb": emb, "die": [W, H], "blk": [], "mods": mods, "nets": nets, "motif": "soft_over_fixed",
-            "thr": p["thr"] / 100, "alpha": p["alpha"] / 100, "maxiter": p["maxiter"], "init": init}
+            "thr": p["thr"] / 100, "alpha": _alpha(p), "maxiter": p["maxiter"], "init": init}
 
 
 def _overlaps(a, b):
@@ -125,7 +130,8 @@ def random_case(rng: random.Random, emb: str) -> dict:
 def _random_case(rng: random.Random, emb: str) -> dict | None:
     """Larger / less regular instances: dies up to 4x4 grid squares, blockage and fixed block anywhere, soft
     modules of random areas and centres, a movable hard module of 1..3 rectangles (flippable or not)."""
-    w, h = rng.choice([(2, 3), (3, 2), (2, 4), (3, 3), (4, 3), (4, 4), (3, 4)])
+    # (wide and flat dies as often as tall ones: a bound taken from the wrong side of the die only shows on one of them)
+    w, h = rng.choice([(2, 3), (3, 2), (2, 4), (4, 2), (3, 3), (4, 3), (4, 4), (3, 4), (5, 2), (6, 2), (2, 5)])
     W, H = w * U, h * U
     blk, mods = [], []
     occupied = []
@@ -210,7 +216,7 @@ def _random_case(rng: random.Random, emb: str) -> dict | None:
     if motif == "soft_over_fixed":
         inits = [["split", 2.0, rng.randint(12, 40)]]              # fine cells: the fixed cell gets neighbours
     return {"src": "rnd", "motif": motif, "emb": emb, "die": [W, H], "blk": blk, "mods": mods, "nets": nets,
-            "thr": rng.choice([0.5, 0.6, 0.7, 0.75, 0.8, 0.85, 0.85] + [0.9] * 5 + [0.95] * 8), "alpha": rng.choice([0, 0.1, 0.3, 0.5, 0.8, 1]),
+            "thr": rng.choice([0.5, 0.6, 0.7, 0.75, 0.8, 0.85, 0.85] + [0.9] * 5 + [0.95] * 8), "alpha": rng.choice([0, 0.1, 0.3, 0.5, 0.8, 1, 1, 0.999]),
             "maxiter": rng.randint(1, 4), "init": rng.choice(inits)}
 
 
